@@ -1,5 +1,6 @@
 import Qfx.Drv.Util
 import Qfx.Spec.Values
+import Qfx.Spec.Float
 import Qfx.Model.Decimal
 namespace Qfx.Drv
 open Qfx Qfx.Spec
@@ -41,7 +42,10 @@ def valMonStep (_ : Unit) (w : List String) : Unit × String :=
   | ["int", "write", v] => (match v.toInt? with | some i => verdict (monIntWrite i obs) | none => "bad-op")
   | ["bool", "read", h] => (match fromHex h with | some b => verdict (monBool b obs) | none => "bad-op")
   | ["bool", "write", v] => if (v == "y" && obs == ["59"]) || (v == "n" && obs == ["4e"]) then "ok" else "bad bool_write_wrong"
-  | ["float", "read", h] => (match fromHex h with | some b => verdict (monFloat b obs) | none => "bad-op")
+  | ["float", "read", h] => (match fromHex h with | some b => verdict (monFloatRead b obs) | none => "bad-op")
+  | ["float", "write", h] => (match bitsOfHex? h with
+      | some bits => if Qfx.F64.ordOf bits < 9218868437227405312 then verdict (monFloatWrite bits obs) else "bad-op"
+      | none => "bad-op")
   | ["dec", "write", h, sc] => (match fromHex h, sc.toNat? with
       | some b, some sc => verdict (monDecWrite false b sc obs) | _, _ => "bad-op")
   | ["udec", "write", h, sc] => (match fromHex h, sc.toNat? with
